@@ -5,7 +5,7 @@ From Coq Require Import ZArith List Bool Lia Permutation.
 From DV Require Import Model.PyPrims Model.Tree Model.Heap Model.HeapOps Model.C03Spec
   Proofs.C03Base Proofs.C03Abs Proofs.C03Local Proofs.C03Prims
   Proofs.C03Collapse Proofs.C03Suppress Proofs.C03Reseed Proofs.C03Order Proofs.C03Ops
-  Proofs.C03SpecLinks.
+  Proofs.C03SpecLinks Proofs.C03Ops2 Proofs.C03Unweighted Proofs.C03PruneLoops.
 Import ListNotations.
 Open Scope Z_scope.
 
@@ -65,17 +65,30 @@ Inductive covered (h : heap) : op -> Prop :=
 | cov_collapse_basal u : covered h (OCollapseBasal u)
 | cov_encode su cb : covered h (OEncode su cb)
 | cov_suppress : covered h OSuppressUnifurcations
-| cov_reseed n ub cb su : live h n -> (kids h n <> [] \/ su = false) -> covered h (OReseedAt n ub cb su)
-| cov_reroot_node n ub su cb : live h n -> (kids h n <> [] \/ su = false) -> covered h (ORerootAtNode n ub su cb)
+| cov_collapse_unweighted thr ub : covered h (OCollapseUnweighted thr ub)
+| cov_reseed n ub cb su : live h n -> covered h (OReseedAt n ub cb su)
+| cov_reroot_node n ub su cb : live h n -> covered h (ORerootAtNode n ub su cb)
+| cov_reroot_edge ci l1 l2 ub su : live h ci -> covered h (ORerootAtEdge ci l1 l2 ub su)
+| cov_to_outgroup og ub : live h og -> covered h (OToOutgroup og ub false)
 | cov_prune_subtree n ub su : live h n -> covered h (OPruneSubtree n ub su)
+| cov_prune_leaf o er : prune_leaf_op o = Some er -> covered h o
+    (* filter_leaf_nodes, prune_leaves_without_taxa, retain_taxa, prune_taxa on leaves *)
 | cov_ladderize asc : covered h (OLadderize asc)
 | cov_reorder asc ranks : covered h (OReorder asc ranks).
 
-(* the exceptions a covered operation may raise: both are raised on purpose by the code *)
-Definition documented (h : heap) (o : op) (e : err) : Prop :=
+(* the exceptions a covered operation may raise, with the state they leave: the first four are
+   raised before anything was changed; the leaf-pruning family raises when the node to remove is
+   the seed, i.e. when everything else has been pruned away: the tree left behind is the seed alone *)
+Definition raises (h : heap) (o : op) (e : err) (h' : heap) : Prop :=
   match o, e with
-  | OPruneSubtree n _ _, TypeErr => n = seed h              (* pruning the seed *)
-  | OEdgeCollapse ci _, ValueErr => kids h ci = []          (* collapsing a terminal edge *)
+  | OPruneSubtree n _ _, TypeErr => n = seed h /\ h' = h            (* pruning the seed *)
+  | OEdgeCollapse ci _, ValueErr => kids h ci = [] /\ h' = h        (* collapsing a terminal edge *)
+  | ORerootAtEdge ci _ _ _ _, AttrErr => ci = seed h /\ h' = h      (* the seed's edge has no tail *)
+  | OToOutgroup og _ _, AssertErr => og = seed h /\ h' = h          (* the seed cannot be an outgroup *)
+  | OFilterLeafNodes _ _ _ _, OtherErr => lone h'                   (* SeedNodeDeletionException *)
+  | OPruneLeavesWithoutTaxa _ _ _, AttrErr => lone h'               (* None.remove_child: the FINDING *)
+  | OPruneTaxa _ _ _ _ false, AttrErr => lone h'
+  | ORetainTaxa _ _ _ _, AttrErr => lone h'
   | _, _ => False
   end.
 
@@ -92,55 +105,72 @@ Proof. intros [R _]. apply rep_plug in R. destruct R as [_ R]. apply (rep_kids h
 
 Theorem op_wf_l h o :
   WF h -> covered h o ->
-  (exists h', run_op o h = HOk h' /\ WF h') \/
-  (exists e, run_op o h = HErr e h /\ documented h o e).
+  exists h', WF h' /\ (run_op o h = HOk h' \/ exists e, run_op o h = HErr e h' /\ raises h o e h').
 Proof.
-  intros [t W] C. destruct C; simpl run_op.
-  - left. eexists. split; [reflexivity|]. eapply WFt_WF, WFt_set_rooted, W.
-  - left. eexists. split; [reflexivity|]. eapply WFt_WF, WFt_set_rooted, W.
+  intros [t W] C.
+  assert (OK : forall h', run_op o h = HOk h' -> WF h' ->
+     exists h', WF h' /\ (run_op o h = HOk h' \/ exists e, run_op o h = HErr e h' /\ raises h o e h')).
+  { intros h' E W'. exists h'. split; [exact W'|left; exact E]. }
+  destruct C; simpl run_op in *.
+  - eapply OK; [reflexivity|]. eapply WFt_WF, WFt_set_rooted, W.
+  - eapply OK; [reflexivity|]. eapply WFt_WF, WFt_set_rooted, W.
   - destruct (live_ctx h t p W H) as [c [s [-> Es]]]. destruct s as [p' xp lp ep ks]. simpl in Es. subst p'.
     destruct (new_child_op_wf h c p xp lp ep ks x l e W) as [h' [E [W' _]]].
-    left. exists h'. split; [exact E|eapply WFt_WF, W'].
+    eapply OK; [exact E|eapply WFt_WF, W'].
   - destruct (live_ctx h t p W H) as [c [s [-> Es]]]. destruct s as [p' xp lp ep ks]. simpl in Es. subst p'.
     destruct (insert_new_child_op_wf h c p xp lp ep ks n x l e W) as [W' _].
-    left. eexists. split; [reflexivity|eapply WFt_WF, W'].
+    eapply OK; [reflexivity|eapply WFt_WF, W'].
   - destruct (live_ctx h t p W H) as [c [s [-> Es]]]. destruct s as [p' xp lp ep ks]. simpl in Es. subst p'.
     pose proof W as [W0 _]. pose proof (kids_of_focus h c _ W0) as K. simpl in K. rewrite K in H0.
     destruct (in_map_split ks ci H0) as [lft [s [rgt [-> Eci]]]]. subst ci.
     destruct (remove_child_wf h c p xp lp ep lft s rgt W) as [h' [E [W' _]]].
-    left. exists h'. split; [exact E|eapply WFt_WF, W'].
+    eapply OK; [exact E|eapply WFt_WF, W'].
   - destruct (live_ctx h t ci W H) as [c [s [-> Es]]]. subst ci.
     pose proof (edge_collapse_op_wf adj h c s W) as Hc.
     destruct c as [|c' p x l e lft rgt].
-    + left. exists h. split; [exact Hc|eapply WFt_WF, W].
+    + eapply OK; [exact Hc|eapply WFt_WF, W].
     + destruct (t_kids s) as [|k0 kr] eqn:Ek.
-      * right. exists ValueErr. split; [exact Hc|]. simpl.
-        pose proof W as [W0 _]. rewrite (kids_of_focus h _ _ W0), Ek. reflexivity.
-      * destruct Hc as [h' [E [W' _]]]. left. exists h'. split; [exact E|eapply WFt_WF, W'].
-  - destruct (deroot_wf h t W) as [h' [E W']]. left. exists h'. split; [exact E|eapply WFt_WF, W'].
-  - destruct (collapse_basal_wf h t u W) as [h' [E [W' _]]]. left. exists h'. split; [exact E|eapply WFt_WF, W'].
-  - destruct (encode_structural_wf su cb h t W) as [h' [E [W' _]]]. left. exists h'. split; [exact E|eapply WFt_WF, W'].
-  - destruct (suppress_unifurcations_wf h t W) as [h' [E [W' _]]]. left. exists h'. split; [exact E|eapply WFt_WF, W'].
+      * exists h. split; [eapply WFt_WF, W|right]. exists ValueErr. split; [exact Hc|]. simpl.
+        pose proof W as [W0 _]. rewrite (kids_of_focus h _ _ W0), Ek. split; reflexivity.
+      * destruct Hc as [h' [E [W' _]]]. eapply OK; [exact E|eapply WFt_WF, W'].
+  - destruct (deroot_wf h t W) as [h' [E W']]. eapply OK; [exact E|eapply WFt_WF, W'].
+  - destruct (collapse_basal_wf h t u W) as [h' [E [W' _]]]. eapply OK; [exact E|eapply WFt_WF, W'].
+  - destruct (encode_structural_wf su cb h t W) as [h' [E [W' _]]]. eapply OK; [exact E|eapply WFt_WF, W'].
+  - destruct (suppress_unifurcations_wf h t W) as [h' [E [W' _]]]. eapply OK; [exact E|eapply WFt_WF, W'].
+  - destruct (collapse_unweighted_wf thr ub h t W) as [h' [E [W' _]]]. eapply OK; [exact E|eapply WFt_WF, W'].
   - destruct (live_ctx h t n W H) as [c [s [-> Es]]]. subst n.
-    pose proof W as [W0 _]. rewrite (kids_of_focus h c s W0) in H0.
-    assert (Hs : t_kids s <> [] \/ su = false).
-    { destruct H0 as [H0|H0]; [left|right; exact H0]. intro E. apply H0. rewrite E. reflexivity. }
-    destruct (reseed_at_wf ub cb su h c s W Hs) as [h' [E [W' _]]].
-    left. exists h'. split; [exact E|eapply WFt_WF, W'].
+    destruct (reseed_at_any ub cb su h c s W) as [h' [t' [E [W' _]]]]. eapply OK; [exact E|eapply WFt_WF, W'].
   - destruct (live_ctx h t n W H) as [c [s [-> Es]]]. subst n.
-    pose proof W as [W0 _]. rewrite (kids_of_focus h c s W0) in H0.
-    assert (Hs : t_kids s <> [] \/ su = false).
-    { destruct H0 as [H0|H0]; [left|right; exact H0]. intro E. apply H0. rewrite E. reflexivity. }
-    destruct (reroot_at_node_wf ub su cb h c s W Hs) as [h' [E [W' _]]].
-    left. exists h'. split; [exact E|eapply WFt_WF, W'].
+    destruct (reroot_at_node_any ub su cb h c s W) as [h' [t' [E [W' _]]]]. eapply OK; [exact E|eapply WFt_WF, W'].
+  - destruct (live_ctx h t ci W H) as [c [s [-> Es]]]. subst ci.
+    destruct c as [|c' p x l e lft rgt].
+    + exists h. split; [eapply WFt_WF, W|right]. exists AttrErr.
+      pose proof W as [[R _] S]. simpl in S, R. unfold reroot_at_edge. rewrite (rep_parent h None s R).
+      split; [reflexivity|]. simpl. split; [exact S|reflexivity].
+    + destruct s as [ci xs ls es ks]. simpl plug in W.
+      destruct (reroot_at_edge_wf l1 l2 ub su h c' p x l e lft ci xs ls es ks rgt W) as [h' [E [W' _]]].
+      eapply OK; [exact E|eapply WFt_WF, W'].
+  - destruct (live_ctx h t og W H) as [c [s [-> Es]]]. subst og.
+    destruct c as [|c' p x l e lft rgt].
+    + exists h. split; [eapply WFt_WF, W|right]. exists AssertErr.
+      pose proof W as [[R _] S]. simpl in S, R. unfold to_outgroup_position. rewrite (rep_parent h None s R).
+      split; [reflexivity|]. simpl. split; [exact S|reflexivity].
+    + simpl plug in W. destruct (to_outgroup_wf ub h c' p x l e lft s rgt W) as [h' [E [W' _]]].
+      eapply OK; [exact E|eapply WFt_WF, W'].
   - destruct (live_ctx h t n W H) as [c [s [-> Es]]]. subst n.
     destruct c as [|c' p x l e lft rgt].
-    + right. exists TypeErr. pose proof W as [_ S]. simpl in S. rewrite S.
-      split; [apply (prune_subtree_root ub su h _ W)|reflexivity].
+    + exists h. split; [eapply WFt_WF, W|right]. exists TypeErr. pose proof W as [_ S]. simpl in S. rewrite S.
+      split; [apply (prune_subtree_root ub su h _ W)|]. simpl. split; reflexivity.
     + simpl plug in W. destruct (prune_subtree_wf ub su h c' p x l e lft s rgt W) as [h' [E [W' _]]].
-      left. exists h'. split; [exact E|eapply WFt_WF, W'].
-  - destruct (ladderize_wf asc h t W) as [h' [t' [E [W' _]]]]. left. exists h'. split; [exact E|eapply WFt_WF, W'].
-  - destruct (reorder_wf asc ranks h t W) as [h' [t' [E [W' _]]]]. left. exists h'. split; [exact E|eapply WFt_WF, W'].
+      eapply OK; [exact E|eapply WFt_WF, W'].
+  - destruct (prune_leaf_op_outcome o er h (WFt_WF h t W) H) as [[h' [E W']]|[e [h' [E [He [W' Lo]]]]]].
+    + eapply OK; [exact E|exact W'].
+    + exists h'. split; [exact W'|right]. exists e. split; [exact E|].
+      destruct He as [<-|[]].
+      destruct o; simpl in H; try discriminate; try (inversion H; subst; exact Lo).
+      destruct on_internal; [discriminate|]. inversion H; subst. exact Lo.
+  - destruct (ladderize_wf asc h t W) as [h' [t' [E [W' _]]]]. eapply OK; [exact E|eapply WFt_WF, W'].
+  - destruct (reorder_wf asc ranks h t W) as [h' [t' [E [W' _]]]]. eapply OK; [exact E|eapply WFt_WF, W'].
 Qed.
 
 (* ---------- histories ---------- *)
@@ -159,7 +189,7 @@ Theorem history_wf_l ops : forall h,
 Proof.
   induction ops as [|o r IH]; intros h W V; simpl.
   - exists h. split; [reflexivity|exact W].
-  - destruct V as [C V]. destruct (op_wf_l h o W C) as [[h1 [E W1]]|[e [E _]]].
+  - destruct V as [C V]. destruct (op_wf_l h o W C) as [h1 [W1 [E|[e [E _]]]]].
     + rewrite E. apply IH; [exact W1|]. apply V. left. exact E.
-    + rewrite E. apply IH; [exact W|]. apply V. right. exists e. exact E.
+    + rewrite E. apply IH; [exact W1|]. apply V. right. exists e. exact E.
 Qed.
